@@ -18,7 +18,7 @@ import sys
 import numpy as np
 
 import models as M
-from common import Check, MachineryError, main_wrapper, run_tlc, run_workers, validate_records, worker_main
+from common import handle_crash, Check, MachineryError, main_wrapper, run_tlc, run_workers, validate_records, worker_main
 
 TOL = 2e-11
 
@@ -133,6 +133,12 @@ def check_generator(job):
         tol = 1e-8 if name.startswith(("coef_transform", "pipeline")) else TOL
         if not e <= tol:
             viol.append({"site": "dot-test:%s:%s" % (name, tag.split(":")[0] + ":" + job["interp"]), "detail": {"job": job, "rel": e}})
+    def test_scaled(name, fa, fb, x, y):
+        """the identity holds for ALL inputs: the same vectors scaled by exact powers of two down to the size of response /
+        difference vectors (an absolute threshold anywhere in a step breaks linearity there)"""
+        for sx, sy in ((2.0 ** -40, 1.0), (1.0, 2.0 ** -40), (2.0 ** -60, 2.0 ** -60)):
+            xs, ys = x * sx, y * sy
+            test("%s:scaled" % name, fa(xs), ys, xs, fb(ys))
     # ---- S1 angular grid <-> harmonics (with stride > nalpha and an offset, as the wrappers accept)
     for stride, off in ((nalpha, 0), (nalpha + 3, 2)):
         x = np.zeros((ngr, stride))
@@ -143,6 +149,17 @@ def check_generator(job):
         by = np.zeros((ngr, stride))
         gi.reduce_angc_ylm_(y.copy(), by, a2y=False, offset=off)
         test("angc_ylm:stride=%s" % ("nalpha" if off == 0 else "wider"), ax, y, x[:, off:off + nalpha], by[:, off:off + nalpha])
+        if off == 0:
+            def fa1(xx):
+                o = gi.empty_rlmq(nalpha)
+                gi.reduce_angc_ylm_(o, xx.copy(), a2y=True, offset=0)
+                return o
+
+            def fb1(yy):
+                o = np.zeros((ngr, nalpha))
+                gi.reduce_angc_ylm_(yy.copy(), o, a2y=False, offset=0)
+                return o
+            test_scaled("angc_ylm", fa1, fb1, x, y)
     # ---- S2 radial grid <-> orbital basis
     atco = ccl.atco_inp
     x = rng.normal(size=(gi.nrad, gi.nlm, nalpha))
@@ -152,6 +169,17 @@ def check_generator(job):
     by = np.zeros_like(x)
     atco.convert_rad2orb_(by, y.copy(), gi, gi.rad_arr, rad2orb=False, offset=0)
     test("rad_orb", ax, y, x, by)
+
+    def fa2(xx):
+        o = np.zeros((atco.nao, nalpha))
+        atco.convert_rad2orb_(xx.copy(), o, gi, gi.rad_arr, rad2orb=True, offset=0)
+        return o
+
+    def fb2(yy):
+        o = np.zeros((gi.nrad, gi.nlm, nalpha))
+        atco.convert_rad2orb_(o, yy.copy(), gi, gi.rad_arr, rad2orb=False, offset=0)
+        return o
+    test_scaled("rad_orb", fa2, fb2, x, y)
     # ---- S3 interpolation-coefficient transforms
     for i in range(-1, nl.num_feat_param_sets if job["ver"] != "i" else 0):
         x = rng.normal(size=(7, nalpha))
@@ -165,6 +193,8 @@ def check_generator(job):
     ax = ccl.multiply_atc_integrals(np.ascontiguousarray(x), fwd=True)
     by = ccl.multiply_atc_integrals(np.ascontiguousarray(y), fwd=False)
     test("atc", ax, y, x, by)
+    test_scaled("atc", lambda xx: ccl.multiply_atc_integrals(np.ascontiguousarray(xx), fwd=True),
+                lambda yy: ccl.multiply_atc_integrals(np.ascontiguousarray(yy), fwd=False), x, y)
     # ---- S5 orbital basis <-> grid (incl. on-site and l+1 terms), random + unit-vector probes
     ng_out = grids.coords.shape[0]
     x = rng.normal(size=(ccl.atco_out.nao, itp.num_in))
@@ -173,6 +203,7 @@ def check_generator(job):
     ax = itp.project_orb2grid(np.ascontiguousarray(x))
     by = itp.project_grid2orb(np.ascontiguousarray(y))
     test("project", ax, y, x, by)
+    test_scaled("project", lambda xx: itp.project_orb2grid(np.ascontiguousarray(xx)), lambda yy: itp.project_grid2orb(np.ascontiguousarray(yy)), x, y)
     for (r, c) in ((0, 0), (ccl.atco_out.nao - 1, itp.num_in - 1), (ccl.atco_out.nao // 2, itp.num_in // 2)):
         ex = np.zeros_like(x)
         ex[r, c] = 1.0
@@ -192,6 +223,7 @@ def check_generator(job):
     ax = gen._perform_fwd_convolution(x.copy()).copy()
     by = gen._perform_bwd_convolution(y.copy()).copy()
     test("pipeline", ax, y, x, by)
+    test_scaled("pipeline", lambda xx: gen._perform_fwd_convolution(xx.copy()).copy(), lambda yy: gen._perform_bwd_convolution(yy.copy()).copy(), x, y)
     # ---- recorded stage sequences during real feature / potential evaluation
     from pyscf.dft import numint as pni
     ao = pni.eval_ao(mol, grids.coords, deriv=1)
@@ -316,7 +348,8 @@ def main():
     for threads in ((1, 3) if not quick else (1,)):
         for res in run_workers(os.path.abspath(__file__), jobs, nproc=16, timeout=7000, threads=threads):
             if "crash" in res:
-                raise MachineryError("worker crashed: %s\n%s" % (res["crash"], res.get("tb")))
+                handle_crash(ck, res)
+                continue
             ck.evaluations += res["n"]
             ck.count(key=(res["id"], threads), n=0)
             for v in res["viol"]:
@@ -327,7 +360,8 @@ def main():
         # one generator again with 3 threads
         for res in run_workers(os.path.abspath(__file__), jobs[:6], nproc=6, timeout=3000, threads=3):
             if "crash" in res:
-                raise MachineryError("worker crashed: %s" % res["crash"])
+                handle_crash(ck, res)
+                continue
             ck.evaluations += res["n"]
             ck.count(key=(res["id"], 3), n=0)
             for v in res["viol"]:
